@@ -17,7 +17,7 @@ META = {
     "timeout": {"quick": 400, "thorough": 2400}, "parts": {"quick": 16, "thorough": 16}},
   "h_induced_set": {"kind": "G",
     "functions": ["InducedSet.induced_set/induced_segments_set/induced_edges_set/_compute_induced_edges_set", "CapturedPath.captured_segments", "edge Other.other"],
-    "bounds": "same graph plus an internal edge, an inner set and a gap; U group of 1..3 items, each ANY of 12 pool items (segments, edges, inner path, inner set, undefined id, gap): induced segments (first-occurrence order), induced edges, induced set equal the oracle; unresolved items refused",
+    "bounds": "same graph plus an internal edge, an inner set and a gap; U group of 1..3 items, each ANY of 15 pool items (segments, edges incl. a loop and a hairpin, inner path, inner set, undefined id, gap): induced segments (first-occurrence order), induced edges, induced set equal the oracle; unresolved items refused",
     "timeout": {"quick": 400, "thorough": 1500}, "parts": {"quick": 16, "thorough": 16}},
   "h_multiline": {"kind": "G",
     "functions": ["SameID._process_not_unique/_import_tags_of_previous_group_definition/_check_tags_of_previous_group_definition", "group References._initialize_references/_line_for_ref_symbol", "VirtualToReal._substitute_virtual_line"],
@@ -30,12 +30,13 @@ BASE = ["S\ts1\t10\t*", "S\ts2\t10\t*", "S\ts3\t10\t*", "S\ts4\t10\t*",
         "E\te12\ts1+\ts2+\t5\t10$\t0\t5\t*", "E\te23\ts2+\ts3-\t5\t10$\t5\t10$\t*", "E\te34\ts3-\ts4+\t0\t5\t0\t5\t*",
         "E\te12b\ts1+\ts2+\t7\t10$\t0\t3\t*", "E\te41\ts4-\ts1-\t0\t3\t0\t3\t*", "E\te13\ts1+\ts3+\t2\t4\t2\t4\t*",
         "O\toin\ts2+ s3-", "U\tuin\ts4 e12", "G\tg1\ts1+\ts2-\t5\t*",
-        "S\ts5\t10\t*", "E\t*\ts4+\ts5+\t6\t10$\t0\t4\t*", "E\t*\ts4+\ts5+\t7\t10$\t0\t3\t*"]     # two anonymous parallel edges
+        "S\ts5\t10\t*", "E\t*\ts4+\ts5+\t6\t10$\t0\t4\t*", "E\t*\ts4+\ts5+\t7\t10$\t0\t3\t*",     # two anonymous parallel edges
+        "E\tloop\ts5+\ts5+\t6\t10$\t0\t4\t*", "E\thp\ts3+\ts3-\t6\t10$\t6\t10$\t*"]     # a loop and a hairpin (edges from a segment to itself)
 OPOOL = [("s1", "+"), ("s2", "+"), ("s3", "-"), ("e12", "+"), ("e23", "+"), ("s4", "+"), ("s5", "+"), ("oin", "-"), ("s2", "-"), ("e34", "-"), ("oin", "+"), ("s5", "-"),
          ("s1", "-"), ("s3", "+"), ("s4", "-"), ("e12", "-"), ("e23", "-"), ("e34", "+"), ("e41", "+"), ("zz", "+")]
 NOP = len(OPOOL)
 NOP3 = vp.T(7, NOP)
-UPOOL = ["s1", "s2", "s4", "e12", "e23", "oin", "uin", "zz", "s3", "e41", "e13", "g1"]
+UPOOL = ["s1", "s2", "s4", "e12", "e23", "oin", "uin", "zz", "s3", "e41", "e13", "g1", "s5", "loop", "hp"]
 NUP = len(UPOOL)
 NUP3 = vp.T(6, NUP)
 ERR = {"notfound": gfapy.NotFoundError, "notunique": gfapy.NotUniqueError, "inconsistent": gfapy.Error, "unresolved": gfapy.Error,
@@ -98,14 +99,16 @@ def h_induced_set(k: int, i0: int, i1: int, i2: int) -> bool:
   u = g.line("ux")
   try:
     gs = [str(x.name) for x in u.induced_segments_set]
-    ge = [str(x.name) for x in u.induced_edges_set]
+    ge_lines = list(u.induced_edges_set)
+    ge = [str(x.name) for x in ge_lines]
     gall = [str(x.name) for x in u.induced_set]
   except gfapy.Error as e:
     vp.reached("is", items, type(e).__name__)
     return ws is None
   vp.reached("is", items, "ok")
   if ws is None: return False
-  return gs == ws and sorted(ge) == we and gall == gs + ge and len(set(ge)) == len(ge)
+  we = sorted("*" if n.startswith("*#") else n for n in we)       # anonymous edges: the oracle numbers them
+  return gs == ws and sorted(ge) == we and gall == gs + ge and len(set(id(x) for x in ge_lines)) == len(ge_lines)
 
 GITEMS = {"U": ["s1 e12", "s3", "s2 oin", "s4", "s1", "e23 s4"], "O": ["s1+ s2+", "s3-", "s2+ s3-", "s3- s4+", "s1+", "e12+ s2+"]}
 TAGSETS = [("xx:i:1", "yy:Z:q"), ("xx:i:1", "xx:i:1"), ("xx:i:1", "xx:i:2"), ("", "zz:i:5"), ("xx:i:1\tzz:Z:a", "yy:Z:q\tzz:Z:a")]
